@@ -208,6 +208,7 @@ def run(tier, seed, work):
             raise vp.Broken("writer brute force failed: " + rep["error"])
         res.evaluations += rep["runs"]
         res.nontrivial_counted += rep["nontrivial"]
+        res.extra["writer_failures_handled_and_carried_on"] = res.extra.get("writer_failures_handled_and_carried_on", 0) + rep.get("handled_failures", 0)
         res.extra["writer_cases"] = res.extra.get("writer_cases", 0) + rep["cases"]
         for v in rep["violations"]:
             res.violation("writers:%s" % v["variant"], "%s: input %r written as %r emitted %r, expected %r" % (v["variant"], v["input"], v["chunks"], v["got"], v["want"]),
